@@ -200,7 +200,23 @@ pub fn directed(i: usize) -> design::Design {
     let sq = || GlyphDef { advance: 500.0, contours: vec![poly(&[(0, 0), (100, 0), (100, 100), (0, 100)])], ..Default::default() };
     let tri = || GlyphDef { advance: 600.0, contours: vec![poly(&[(10, 20), (300, 40), (120, 260)])], ..Default::default() };
     let of = |adv: f64, comps: Vec<design::Comp>| GlyphDef { advance: adv, components: comps, ..Default::default() };
-    match i % 6 {
+    match i % 7 {
+        // 6: three levels — the leaf `a` alone has an intermediate (sparse layer) master; the middle composite `b` has only
+        //    the ordinary masters; its users are decomposed while `b` is still a composite: `c` is mixed (contour + component),
+        //    `d` references `b` through a 2x2, `e` is a plain composite of `b` (decompose-all / flatten)
+        6 => two_master(vec![
+            ("e", of(640.0, vec![comp("b", ID, 15.0, -25.0)])),
+            ("d", of(620.0, vec![comp("b", [0.5, 0.0, 0.0, 0.5], 40.0, 10.0)])),
+            ("c", GlyphDef { advance: 600.0, contours: vec![poly(&[(500, 0), (560, 0), (530, 80)])],
+                             components: vec![comp("b", ID, 20.0, 30.0)], ..Default::default() }),
+            ("b", of(600.0, vec![comp("a", ID, 100.0, 0.0)])),
+            ("a", GlyphDef { advance: 500.0, contours: vec![poly(&[(0, 0), (200, 0), (200, 200), (0, 200)])], ..Default::default() }),
+        ], vec![
+            ("a", GlyphDef { advance: 500.0, contours: vec![poly(&[(0, 0), (400, 0), (400, 200), (0, 200)])], ..Default::default() }),
+        ], vec![
+            // at 650 (halfway) the leaf is NOT halfway: 200 -> 220 -> 400
+            ("a", GlyphDef { advance: 500.0, contours: vec![poly(&[(0, 0), (220, 0), (220, 200), (0, 200)])], ..Default::default() }),
+        ]),
         // 0: nested scales 3/2 · 3/2 = 9/4: flattening composes a 2x2 that F2Dot14 cannot hold
         0 => two_master(vec![
             ("a", sq()),
